@@ -12,6 +12,7 @@ RULES = {
     "C13.R2": "who may call: global module-hook registration and TorchFunctionMode entry occur nowhere else in the package",
     "C13.R3": "inference effects: no external write effect is reachable from forward/qforward/qweight, any aten handler or library implementation (reasoned exemptions: copy_ handler, Extension.lib)",
     "C13.R4": "quantization effects: in the closure of quantize_weight/quantize_activation/freeze/quantize no in-place tensor operation targets a value that is not freshly allocated",
+    "C13.R6": "a module's outputs do not give write access to its buffers: the scale handed to quantize_activation in forward / qforward is stored in the returned tensor as it is (C01.R2), so passing the registered buffer itself makes every in-place write on an output's scale (the copy_ handler does one) a write on the module's state",
     "C13.R5": "disable_extensions restores the switch in a finally that encloses the yield",
 }
 
@@ -37,6 +38,8 @@ def run(chk):
     inference_effects(chk, g)
     quantization_effects(chk, g)
     disable_ext(chk)
+    if chk.pid == "C13":
+        buffer_aliasing(chk)
     chk.assume("torch functional calls do not mutate their arguments except through trailing-underscore methods and out=",
                "RemovableHandle.remove() and TorchFunctionMode.__exit__ restore torch's own registries (torch bookkeeping trusted)")
 
@@ -189,6 +192,30 @@ def drains(fn, cont):
         if isinstance(n, ast.For) and U(n.iter) in (f"self.{cont}", f"list(self.{cont})", f"reversed(self.{cont})", f"self.{cont}[::-1]"):
             return True
     return False
+
+
+def buffer_aliasing(chk):
+    repo = chk.repo
+    mixin = repo.cls("QModuleMixin")
+    n = 0
+    sites = []
+    for c in [mixin] + repo.subclasses(mixin):
+        for mname in ("forward", "qforward"):
+            fn = c.own(mname)
+            if fn is None:
+                continue
+            for nd in ast.walk(fn):
+                if isinstance(nd, ast.Call) and U(nd.func) in ("quantize_activation", "maybe_requantize"):
+                    for a in list(nd.args) + [k.value for k in nd.keywords]:
+                        if U(a) in ("self.input_scale", "self.output_scale"):
+                            n += 1
+                            sites.append((c, fn, nd, U(a)))
+    from ..registries import handlers
+    writers = [h.name for h in handlers(repo)["qbytes"] if any(o.split(".")[1].endswith("_") for o in h.ops) and any(isinstance(x, ast.Call) and x.args and U(x.args[0]).endswith("._scale") for x in ast.walk(h.fn))]
+    for c, fn, nd, a in sites[:1]:
+        chk.require("C13.R6", f"{c.mod.rel}:{nd.lineno}", not writers, f"{c.name}.{fn.name} hands the buffer `{a}` itself to the tensor it returns ({n} such sites); handlers writing a scale in place: {writers}", f"{c.name}.{fn.name}", "module output aliases a scale buffer",
+                    "a model whose forward writes into a module output (h[0] = g[0], or h.copy_(g)) between two quantized modules: outside any Calibration context the first module's output_scale changes (0.0108 -> 0.0514) and its next output is not bit-identical")
+    chk.floor("C13.R6", n, 2, "scale buffers handed to quantize_activation")
 
 
 def who_may_call(chk):
